@@ -106,7 +106,11 @@ def _f2(v):
         same_type = b["err"]["etype"] == a["err"]["cls"] or (v["oracle"] == "C02.final_outcome_depends_on_interruptions" and b["err"]["etype"] is None)
         return b["err"]["cls"] == "CallableRuntimeError" and a["err"]["cls"] != "CallableRuntimeError" and same_type and b["err"]["msg"] == a["err"]["msg"]
     if "ok" in a and "ok" in b and isinstance(a["ok"], str) and isinstance(b["ok"], str):
-        return _f2_rewrite(a["ok"]) == b["ok"] or _f2_rewrite(a["ok"])[:8] == b["ok"][:8] and "#" in b["ok"]
+        if _f2_rewrite(a["ok"]) == b["ok"] or _f2_rewrite(a["ok"])[:8] == b["ok"][:8] and "#" in b["ok"]:
+            return True
+        # final outcomes of two runs of the same program: which of them last saw the failing wait_for_condition on its
+        # first execution (original exception) rather than on a replay depends on where the interruptions fell
+        return v["oracle"] == "C02.final_outcome_depends_on_interruptions" and _f2_rewrite(b["ok"]) == a["ok"]
     return False
 
 
